@@ -117,6 +117,26 @@ pub fn suite_encode(out: &mut Out, tier: &str, rng: &mut Rng) {
             out.emit(json!({"op": "encode", "kind": kind, "v": v, "prefix": [], "wr": "sparse", "vbase_log2": k, "vbase_add": add}));
         }
     }
+    // every AVP kind (and a control / data message) behind prefixes of every length 0..=17 (all alignments mod 16)
+    // whose CONTENT is zeros, ones, random, or looks like what is being written (the value's own encoding, an AVP
+    // header, a message header)
+    for ki in 0..=KINDS.len() + 1 {
+        for plen in 0..=17usize {
+            if tier != "thorough" && (ki + plen) % 3 != 0 {
+                continue;
+            }
+            let (kind, v) = if ki < KINDS.len() { ("avp", gen_avp_kind(rng, ki, 9)) } else if ki == KINDS.len() { ("msg", gen_control(rng, 3, 8)) } else { ("msg", gen_data(rng, 12)) };
+            let own: Vec<u8> = if kind == "avp" { enc_avp(&v) } else if v["k"] == "Control" { enc_control(&v) } else { vec![0x00, 0x02, 0, 1, 0, 2] };
+            let prefix: Vec<u8> = match (ki + plen) % 5 {
+                0 => vec![0u8; plen],
+                1 => vec![0xffu8; plen],
+                2 => own.iter().cycle().take(plen).copied().collect(),
+                3 => [0x13u8, 0x20, 0x00, 0x0c, 0, 0, 0, 0, 0, 0, 0, 0, 0x80, 0x08, 0, 0, 0, 0].iter().take(plen).copied().collect(),
+                _ => rng.bytes(plen),
+            };
+            out.emit(json!({"op": "encode", "kind": kind, "v": v, "prefix": bytes_json(&prefix), "wr": if (ki + plen) % 2 == 0 { "vec" } else { "mon" }}));
+        }
+    }
     // sizes around 2^16 and 2^17: a length computed or compared in 16 bits would wrap here
     let wraps: &[usize] = if tier == "thorough" {
         &[65529, 65530, 65531, 65535, 65536, 65600, 66553, 66554, 131066, 131100]
@@ -435,6 +455,33 @@ pub fn suite_hide(out: &mut Out, tier: &str, rng: &mut Rng) {
             out.emit(json!({"op": "hide_reveal", "v": a2, "secret": bytes_json(&secret), "rv": bytes_json(&rv), "lp": bytes_json(&lp), "ap": bytes_json(&ap)}));
         }
     }
+    // every kind x length padding 0..=16 (quick: six of them); values made of repeated, all-zero or secret-equal
+    // blocks; random vectors related to the secret
+    for ki in 0..KINDS.len() {
+        for lpn in 0..=16usize {
+            if tier != "thorough" && ![0usize, 1, 13, 14, 15, 16].contains(&lpn) {
+                continue;
+            }
+            let a = gen_avp_kind(rng, ki, 14);
+            out.emit(json!({"op": "hide_reveal", "v": a, "secret": bytes_json(&secret_of(rng)), "rv": bytes_json(&rng.bytes(4)),
+                            "lp": bytes_json(&rng.bytes(lpn)), "ap": bytes_json(&rng.bytes(16))}));
+        }
+    }
+    for pat in 0..12usize {
+        let secret = rng.rbytes(4, 20);
+        let blk: Vec<u8> = match pat % 4 { 0 => vec![0u8; 16], 1 => vec![0xffu8; 16], 2 => secret.iter().cycle().take(16).copied().collect(), _ => rng.bytes(16) };
+        let nblk = 1 + pat % 4;
+        let mut val: Vec<u8> = Vec::new();
+        for _ in 0..nblk {
+            val.extend_from_slice(&blk);
+        }
+        val.truncate(16 * nblk - 2);          // with the 2-octet length subfield: exactly nblk blocks
+        let rv: Vec<u8> = match pat % 3 { 0 => secret[..4].to_vec(), 1 => vec![0u8; 4], _ => rng.bytes(4) };
+        for k in ["HostName", "Challenge", "PrivateGroupId"] {
+            out.emit(json!({"op": "hide_reveal", "v": {"k": k, "f": [bytes_json(&val)]}, "secret": bytes_json(&secret), "rv": bytes_json(&rv),
+                            "lp": [], "ap": bytes_json(&blk)}));
+        }
+    }
     // every kind once, no length padding
     for ki in 0..KINDS.len() {
         if tier != "thorough" && ki % 3 != 0 {
@@ -600,6 +647,19 @@ pub fn suite_enum(out: &mut Out, _tier: &str, _rng: &mut Rng) {
     }
     for f in ["MessageType", "ErrorType", "ProxyAuthenType", "StopCcn", "Cdn"] {
         out.emit(json!({"op": "enum_names", "field": f}));
+    }
+    // the same sweeps with the record's M bit clear / reserved bits set, and with surplus octets behind the code
+    for (f, sur) in [("MessageType", vec![9u8]), ("ProxyAuthenType", vec![0, 0]), ("ErrorType", vec![b'a', b'b'])] {
+        for (f6, surplus) in [(0u8, vec![]), (0x3d, vec![]), (1, sur.clone()), (0x3c, sur.clone())] {
+            for (lo, hi) in [(0u32, 255u32), (256, 32767), (32768, 65535)] {
+                out.emit(json!({"op": "enum_map", "field": f, "lo": lo, "hi": hi, "f6": f6, "surplus": bytes_json(&surplus)}));
+            }
+        }
+    }
+    for f6 in [0u8, 0x3d] {
+        for (lo, hi) in [(0u32, 255u32), (256, 65535)] {
+            out.emit(json!({"op": "enum_map", "field": "AttributeType", "lo": lo, "hi": hi, "f6": f6}));
+        }
     }
     // the same sweeps with the AVP inside a whole control message (Message::try_read_validate): as the first AVP
     // (message types), behind the message types that carry it (Result Code in StopCCN / CDN, Proxy Authen Type
@@ -780,9 +840,16 @@ pub fn suite_cursor(out: &mut Out, tier: &str, rng: &mut Rng) {
         }
     }
     // longer random sequences on slices of a few hundred octets
-    for _ in 0..counts(tier, 40, 2000) {
+    for it in 0..counts(tier, 200, 6000) {
         let len = rng.range(100, 700) as usize;
-        let slice = rng.bytes(len);
+        // (contents: random, all zero, all ones, 0x80 pattern, ascending -- a reader that looks at the VALUES)
+        let slice: Vec<u8> = match it % 6 {
+            0 => vec![0u8; len],
+            1 => vec![0xffu8; len],
+            2 => (0..len).map(|i| if i % 2 == 0 { 0x80 } else { 0x00 }).collect(),
+            3 => (0..len).map(|i| i as u8).collect(),
+            _ => rng.bytes(len),
+        };
         let mut lens: Vec<Option<usize>> = vec![Some(len)];
         let mut ops = Vec::new();
         for _ in 0..rng.range(10, 40) {
@@ -1039,6 +1106,39 @@ pub fn suite_flags(out: &mut Out, tier: &str, rng: &mut Rng) {
     for _ in 0..counts(tier, 300, 10000) {
         let (b, _) = noncanonical_input(rng);
         out.emit(json!({"op": "decode_opts", "in": bytes_json(&b)}));
+    }
+    // every option set (and the default entry) on whole messages of many kinds, each under several flag words:
+    // as is, version 3, a reserved bit, the P bit, the O bit -- an option must not reach beyond its own bits
+    // whatever the message carries
+    let mut msgs: Vec<Vec<u8>> = Vec::new();
+    for ki in 0..KINDS.len() {
+        let m = json!({"k": "Control", "length": 0, "tunnel_id": rng.u16(), "session_id": rng.u16(), "ns": rng.u16(), "nr": rng.u16(),
+                       "avps": [gen_message_type(rng), gen_avp_kind(rng, ki, 8)]});
+        msgs.push(enc_control(&m));
+    }
+    for _ in 0..counts(tier, 30, 600) {
+        msgs.push(enc_control(&gen_control(rng, 5, 12)));
+        let d = gen_data(rng, 20);
+        msgs.push(enc_data_from_value(&d, rng));
+        // a control message with something wrong inside
+        let mut recs = enc_avp(&gen_message_type(rng));
+        recs.extend(random_record(rng));
+        msgs.push(enc_control_raw(flag_word(true, true, true, false, false, 2), None, [1, 2, 3, 4], &recs));
+    }
+    for b in msgs.iter() {
+        for variant in 0..5usize {
+            let mut v = b.clone();
+            match variant {
+                0 => {}
+                1 => v[1] = (v[1] & 0x0f) | 0x30,
+                2 => v[0] |= 0x04,
+                3 => v[0] |= 0x80,
+                _ => v[0] |= 0x40,
+            }
+            if tier == "thorough" || variant == 0 || rng.chance(1, 2) {
+                out.emit(json!({"op": "decode_opts", "in": bytes_json(&v)}));
+            }
+        }
     }
 }
 
@@ -1646,6 +1746,23 @@ pub fn suite_history(out: &mut Out, tier: &str, rng: &mut Rng) {
             for v in variants {
                 calls.push(json!({"op": "decode", "in": bytes_json(&wrap(&v)), "opts": [true, true, true], "entry": "validate", "rdr": "slice", "id": 0}));
             }
+        }
+        // a sample of structured content (RFC-composed messages of every type with hidden, vendor-specific and
+        // unknown records mixed in) so that calls of many kinds meet many different predecessors
+        for (mi, (_, mt)) in MSG_TYPES.iter().enumerate() {
+            let mut recs = enc_avp(&json!({"k": "MessageType", "f": [mt]}));
+            for j in 0..3 {
+                match (mi + j) % 5 {
+                    0 => recs.extend(enc_avp(&gen_hidden(rng, 16))),
+                    1 => recs.extend(enc_record(1, 8, 9, 7, &[65, 66])),
+                    2 => recs.extend(enc_record(0, 7, 0, 46, &[1])),
+                    _ => recs.extend(enc_avp(&gen_avp(rng, 8))),
+                }
+            }
+            let w = enc_control_raw(flag_word(true, true, true, false, false, 2), None, [mi as u16, 2, 3, 4], &recs);
+            calls.push(json!({"op": "decode", "in": bytes_json(&w), "opts": [true, true, true], "entry": "validate", "rdr": "slice", "id": 0}));
+            let clean = gen_control(rng, 3, 8);
+            calls.push(json!({"op": "decode", "in": bytes_json(&enc_control(&clean)), "opts": [true, true, true], "entry": "validate", "rdr": "slice", "id": 0}));
         }
         // texts that differ only in case / normalisation form, in every text kind
         for k in ["VendorName", "CalledNumber", "CallingNumber", "SubAddress", "ResultCode", "Q931CauseCode"] {
@@ -2318,7 +2435,7 @@ pub fn suite_record_product(out: &mut Out, tier: &str, rng: &mut Rng) {
         }
     }
     let flags: &[u8] = &[0, 1, 2, 3, 0x3d, 0x3e];
-    let types: Vec<u16> = if tier == "thorough" { (0..=41u16).chain([255, 256, 65535]).collect() } else { vec![0, 1, 7, 12, 13, 20, 26, 29, 34, 36, 39, 40, 65535] };
+    let types: Vec<u16> = if tier == "thorough" { (0..=41u16).chain([255, 256, 65535]).collect() } else { vec![0, 1, 3, 4, 7, 12, 13, 18, 19, 20, 26, 29, 34, 36, 39, 40, 65535] };
     let ctl = |body: &[u8]| enc_control_raw(flag_word(true, true, true, false, false, 2), None, [1, 2, 3, 4], body);
     for &f in flags {
         for vendor in [0u16, 9] {
